@@ -133,3 +133,104 @@ def lexically_inside_with(func_node, target, pred):
 
     visit(func_node, False)
     return bool(found) and all(found)
+
+
+def pass_through(g, fi, min_params=1):
+    """Does `fi` hand ALL of its own parameters (other than self), unchanged and in order, to one
+    call on every path from entry?  -> (verdict, detail)
+       verdict True  : such a call post-dominates the entry and no parameter is rebound before it
+               False : the forwarding call exists but can be skipped / parameters are rebound (detail says which)
+               None  : no call forwarding exactly the parameters found (idiom not recognised)"""
+    params = [a.arg for a in fi.node.args.posonlyargs + fi.node.args.args if a.arg != "self"]
+    if len(params) < min_params:
+        return None, f"{fi.qual} has parameters {params}"
+    fwd = []
+    own = set()
+    if fi.cls is not None:
+        k = fi.cls
+        own = set(k.methods)  # calls of the class's own methods are helpers, not the delegate
+    for n in g.stmt_nodes():
+        for c in n.calls():
+            if [ast.unparse(a) for a in c.args] == params and not c.keywords:
+                if isinstance(c.func, ast.Attribute) and isinstance(c.func.value, ast.Name) and c.func.value.id == "self" and c.func.attr in own:
+                    continue
+                fwd.append((n, c))
+    if not fwd:
+        return None, f"no call forwarding ({', '.join(params)})"
+    rebound = sorted({t.id for n in g.stmt_nodes() for t in ast.walk(n.ast) if isinstance(t, ast.Name) and t.id in params and isinstance(t.ctx, ast.Store)})
+    if rebound:
+        return False, f"parameter(s) {rebound} are rebound before being forwarded"
+    if any(g.pdom(n, g.entry) for n, _ in fwd):
+        return True, ast.unparse(fwd[0][1].func)
+    n, c = fwd[0]
+    atoms = "; ".join(("" if p else "not ") + t for t, p in g.guard_atoms(n))
+    return False, f"`{ast.unparse(c)}` is reached only when [{atoms}]"
+
+
+def _flag_var(test):
+    """name of the local tested by a pure flag test (`v`, `not v`, `v is None`, `v is not None`), else None"""
+    e = test
+    while isinstance(e, ast.UnaryOp) and isinstance(e.op, ast.Not):
+        e = e.operand
+    if isinstance(e, ast.Name):
+        return e.id
+    if isinstance(e, ast.Compare) and len(e.ops) == 1 and isinstance(e.ops[0], (ast.Is, ast.IsNot)) and isinstance(e.left, ast.Name) \
+            and isinstance(e.comparators[0], ast.Constant) and e.comparators[0].value is None:
+        return e.left.id
+    return None
+
+
+def _falsy_assigns(g, var):
+    """assignments of a falsy constant to `var` or to a local it is copied from (transitively)"""
+    names, todo = {var}, [var]
+    assigns = []
+    for n in g.stmt_nodes():
+        a = n.ast
+        if isinstance(a, (ast.Assign, ast.AnnAssign)) and getattr(a, "value", None) is not None:
+            tg = a.targets if isinstance(a, ast.Assign) else [a.target]
+            for t in tg:
+                if isinstance(t, ast.Name):
+                    assigns.append((t.id, a.value, n))
+    while todo:
+        v = todo.pop()
+        for tname, val, n in assigns:
+            if tname == v and isinstance(val, ast.Name) and val.id not in names:
+                names.add(val.id)
+                todo.append(val.id)
+    return [n for tname, val, n in assigns if tname in names and isinstance(val, ast.Constant) and not val.value]
+
+
+def followed_by(g, a, b):
+    """Is every execution of node `a` followed by exactly one execution of node `b` before control
+    returns to a's loop head or leaves the function?  Tests between the two are tolerated only when
+    they are *flag tests*: a local that is set to a falsy constant on a path that bypasses `a` and
+    never between `a` and the test (the `x = None ... if x is not None:` idiom an extracted helper
+    leaves behind after inlining).  -> (ok, why)"""
+    if not (g.dom(a, b) or g.dom_ps(a, b)):
+        return False, "the second call is reachable without the first"
+    if g.loop_of(a) is not g.loop_of(b):
+        return False, "the two calls are in different loops"
+    gs = g.guards(b, entry=a, cut_back=True)
+    cut = set()
+    for t, label in gs:
+        if t.kind != "test":
+            return False, "an iteration lies between the two calls"
+        v = _flag_var(t.ast)
+        if v is None:
+            return False, f"the second call is skipped unless `{ast.unparse(t.ast)}` is {label == 'T'}"
+        fa = _falsy_assigns(g, v)
+        after_a = g.reach_from(a, avoid=(b,), cut=g.back_edges)
+        if not fa or any(n in after_a for n in fa):
+            return False, f"the second call is skipped when `{v}` is falsy, and `{v}` is not a pure skip flag"
+        for m, lab in g.succ[t]:
+            if lab != label:
+                cut.add((t, m))
+    esc = g.reach_from(a, avoid=(b,), cut=cut | set(g.back_edges))
+    head = g.loop_of(a)
+    if g.exit in esc:
+        return False, "a path from the first call leaves the function without the second"
+    # back to the loop head without b: follow back edges explicitly
+    esc2 = g.reach_from(a, avoid=(b,), cut=cut)
+    if head is not None and head in esc2:
+        return False, "a path from the first call starts the next iteration without the second"
+    return True, ""
